@@ -167,6 +167,7 @@ BatchOK == (l > 1 /\ Cur.ev = "ABatch") =>
      /\ b.rid # rid /\ b.ti = typ
 \* C05 on bulk-built / copied containers: they are containers like any other
 OtherWellFormed == (l > 1 /\ Len(Cur.probe.other) = 1) => ArrayWellFormed(Cur.probe.other[1].F[1])
+OtherSizesAgree == (l > 1 /\ Len(Cur.probe.other) = 1) => ArraySizesAgree(Cur.probe.other[1].F[1])
 Copyable(F) == F.k = "d" /\ \A i \in 1..Len(F.e) : F.e[i].c = "s"
 CopyOK == (l > 1 /\ Cur.ev = "ACopy") =>
   /\ Cur.probe.can = Copyable(Forest(Cur))
@@ -178,12 +179,21 @@ CopyOK == (l > 1 /\ Cur.ev = "ACopy") =>
   /\ (~Cur.probe.can => Cur.res.class # "ok")
 SourceUnaffected == (l > 1 /\ Cur.ev \in {"ABatch", "ACopy", "AOtherDisposed"}) =>
   /\ AbsIds(Root(Cur).abs) = seq /\ AFlatten(Forest(Cur)) = seq
+  /\ ArrayWellFormed(Forest(Cur)) /\ ArraySizesAgree(Forest(Cur))
   /\ (Cur.ev = "AOtherDisposed" => Cur.st.stored = Cur.st.reach)
 \* C18: a rejected request leaves no trace: content, slabs and write set are those before the request
 Rejected(r) == r.res.class \notin {"ok"} /\ r.ev \in {"AInsert", "AAppend", "ASet", "ARemove", "AGet"}
 NoTraceOfRejected == (l > 2 /\ Rejected(Cur) /\ Trace[l - 2].t = Cur.t) =>
   /\ Root(Cur).fsum = Root(Trace[l - 2]).fsum
   /\ Cur.st.deltas = Trace[l - 2].st.deltas /\ Cur.st.stored = Trace[l - 2].st.stored /\ Cur.st.calls = Trace[l - 2].st.calls
+
+\* C07: re-encoding the decoded register gives the identical bytes; header flags are truthful
+CommitOK(r) == r.ev = "Commit" /\ r.res.class = "ok"
+ColdSlabNodes(r) == UNION {SlabNodes(r.cold[i].F[1]) : i \in 1..Len(r.cold)}
+ReencodesExactly == (l > 1 /\ CommitOK(Cur)) => \A i \in 1..Len(Cur.regs) : Cur.regs[i].reenc
+FlagsTruthful == (l > 1 /\ CommitOK(Cur)) => \A i \in 1..Len(Cur.regs) : FlagsOf(Cur.regs[i], ColdSlabNodes(Cur))
+\* C06: the size a slab reports equals the bytes written
+EncodedLenRelation == (l > 1 /\ CommitOK(Cur)) => \A i \in 1..Len(Cur.regs) : SizeOf(Cur.regs[i], ColdSlabNodes(Cur))
 
 TraceAccepted ==
   LET d == TLCGet("stats").diameter IN
